@@ -3,6 +3,8 @@
 package cache
 
 import (
+	"time"
+
 	"github.com/IrineSistiana/mosdns/v5/pkg/cache"
 	"github.com/miekg/dns"
 )
@@ -134,4 +136,45 @@ func vrtHarness_C10_isolation() {
 	vrtAssume(h3 != nil)
 	vrtCover("hit after mutation", true)
 	vrtAssert("a later hit is unaffected by mutations of an earlier hit and of the original", vrtMsgEqNoID(h3, h2))
+}
+
+// The same on the stale (lazy cache) path: the entry's TTL has run out but the
+// entry is still kept, hits are served with the fixed stale TTL.
+func vrtHarness_C10_isolationLazy() {
+	r := new(dns.Msg)
+	vrtHeader(r)
+	r.Response, r.Truncated, r.Rcode = true, false, dns.RcodeSuccess
+	r.Question = []dns.Question{{Name: vrtString(2), Qtype: vrtU16(), Qclass: vrtU16()}}
+	n := vrtParam("max_rr", 2)
+	r.Answer = vrtSection(n, []int{0, 1, 4, 5}, "a.")
+	r.Ns = vrtSection(1, []int{2}, "a.")
+	r.Extra = vrtSection(1, []int{0, 3}, "a.")
+	vrtAssume(len(r.Answer) > 0)
+	for _, sec := range [][]dns.RR{r.Answer, r.Ns, r.Extra} {
+		for _, rr := range sec {
+			vrtAssume(vrtAnd(rr.Header().Ttl >= 10, rr.Header().Ttl <= 100))
+		}
+	}
+	backend := cache.New[key, *item](cache.Opts{Size: 1024})
+	vrtAssume(saveRespToCache("k", r, backend, 86400))
+	it, cacheExp, ok := backend.Get("k")
+	vrtAssume(ok)
+	const e = 1000 * time.Second // every TTL (<= 100 s) has run out, the entry (1 day) is kept
+	backend.Flush()
+	it.storedTime, it.expirationTime = it.storedTime.Add(-e), it.expirationTime.Add(-e)
+	backend.Store("k", it, cacheExp.Add(-e))
+
+	h1, lazy1 := getRespFromCache("k", backend, true, expiredMsgTtl)
+	h2, lazy2 := getRespFromCache("k", backend, true, expiredMsgTtl)
+	vrtAssume(h1 != nil && h2 != nil)
+	vrtCover("stale hits", vrtAnd(lazy1, lazy2))
+	vrtAssert("both hits are stale hits", vrtAnd(lazy1, lazy2))
+	vrtAssert("a stale hit shares no mutable state with the stored copy", vrtDisjoint(h1, it.resp))
+	vrtAssert("two stale hits share no mutable state", vrtDisjoint(h1, h2))
+	vrtAssert("two stale hits are equal", vrtMsgEqNoID(h1, h2))
+	vrtMutate(h1)
+	vrtMutate(r)
+	h3, _ := getRespFromCache("k", backend, true, expiredMsgTtl)
+	vrtAssume(h3 != nil)
+	vrtAssert("a later stale hit is unaffected by mutations of an earlier one and of the original", vrtMsgEqNoID(h3, h2))
 }
